@@ -6,18 +6,18 @@ package protocol
 // built with the real types.NewTx/MapTx.
 
 //verif:property C22
-//verif:bound transaction DAGs of 3 transactions (quick: every shape for processTransaction, one shape each for RemoveTransaction and ExpireOrphan; thorough: every shape for every operation, and 4 transactions for RemoveTransaction on the two-parent shape) from a menu of shapes: chain, two-parent orphan with a child, diamond, double edge (both outputs of one parent spent by one child); every transaction has 1..2 inputs, 2 original outputs and (the first one) a retirement output
-//verif:bound pre-state: every transaction independently absent / pooled / orphaned; every external input and the outputs of every absent transaction independently confirmed in the store or not; orphan expiration instants arbitrary below 2^32 s; every orphan indexed under each missing input and, arbitrarily, under inputs that the store has confirmed meanwhile; all such states that satisfy the invariant
+//verif:bound transaction DAGs of 3 transactions from a menu of 5 shapes: chain, two-parent orphan with a child, diamond, double edge (both outputs of one parent spent by one child), competing children (two transactions spend the same output); every transaction has 1..2 inputs and 2 original outputs placed around an output that is not an OriginalOutput: layouts o-o-retirement, retirement-o-o, o-vote-o, o-o (transaction i of shape s uses layout (s+i) mod 4). Quick: four shapes for processTransaction, the two-parent shape for RemoveTransaction, competing children for ExpireOrphan; thorough: every shape for every operation, and 4 transactions for RemoveTransaction on the two-parent shape
+//verif:bound pre-state: every transaction independently absent / pooled / orphaned; every external input and the outputs of every absent transaction independently confirmed in the store or not; orphan expiration instants arbitrary below 2^32 s; every orphan indexed under at least one missing input; each further missing input that is an output of a transaction of the DAG arbitrarily indexed or not (an input that was available when the orphan arrived and went missing later is not indexed - so an orphan may spend an output whose index bucket holds only other orphans); arbitrarily indexed under inputs that the store has confirmed meanwhile; all such states that satisfy the invariant
 //verif:bound one operation: processTransaction of an absent transaction or of one that is currently an orphan (re-submission), RemoveTransaction of any transaction of the DAG or of an unknown hash, ExpireOrphan at an arbitrary instant
 //verif:assume the store is a consistent in-memory mock: GetTransactionsUtxo puts an unspent entry into the view exactly for the confirmed outputs; it does not change during an operation
 //verif:assume RemoveTransaction(tx) is only called for transactions of a block that has just been attached (protocol/block.go reorganizeChain, after setState): the mock store then holds the outputs of tx as confirmed
 //verif:assume the pool limits (maxNewTxNum 10000, maxOrphanNum 2000) are not reached
 //verif:assume time.Now returns an arbitrary instant below 2^33 s; event.Dispatcher.Post has no effect on the pool (stubs for the solver; the real clock and a real dispatcher without subscribers in the native replay)
-//verif:outside Chain.ValidateTx (validation, dust filter, error cache), double spends between pooled transactions, the expiry goroutine and locking (operations run sequentially as under tp.mtx), vote/veto outputs
+//verif:outside Chain.ValidateTx (validation, dust filter, error cache), double spends between pooled transactions, the expiry goroutine and locking (operations run sequentially as under tp.mtx), spending of vote outputs (veto inputs)
 //verif:override time.Now -> verifC22Now
 //verif:override (*github.com/bytom/bytom/event.Dispatcher).Post -> verifC22Post
-//verif:obligation fn=VerifC22Step args=0,3,0;1,3,0;2,3,0;3,3,0;1,3,1;2,3,2 validate=12 secs=1700
-//verif:obligation fn=VerifC22Step args=0,3,1;2,3,1;3,3,1;0,3,2;1,3,2;3,3,2;1,4,1 tier=thorough secs=1700
+//verif:obligation fn=VerifC22Step args=0,3,0;1,3,0;2,3,0;4,3,0;1,3,1;4,3,2 validate=12 secs=1700
+//verif:obligation fn=VerifC22Step args=3,3,0;0,3,1;2,3,1;3,3,1;4,3,1;0,3,2;1,3,2;2,3,2;3,3,2;1,4,1 tier=thorough secs=1700
 
 import (
 	"time"
@@ -81,10 +81,33 @@ var verifC22Shapes = [][][]int{
 	{{-1}, {-1}, {0, 2}, {4}},    // two-parent orphan T2 (parents T0, T1) with child T3
 	{{-1}, {0}, {1, -1}, {2, 4}}, // diamond T0 -> {T1, T2} -> T3
 	{{-1}, {0, 1}, {2, -1}, {3}}, // double edge: both outputs of T0 spent by T1
+	{{-1}, {0, -1}, {0}, {2, 4}}, // competing children: T1 and T2 both spend output 0 of T0
+}
+
+// Output layouts: where the two original outputs (o) sit relative to an output
+// that is not an OriginalOutput (r = retirement, v = vote). Transaction i of
+// shape s uses layout (s+i) mod 4, so every shape mixes positions.
+// 0: o o r   1: r o o   2: o v o   3: o o
+func verifC22Outputs(i, layout int) (outs []*types.TxOutput, origPos []int) {
+	o0 := types.NewOriginalTxOutput(*consensus.BTMAssetID, uint64(100+10*i), verifC22Prog(i, 0), nil)
+	o1 := types.NewOriginalTxOutput(*consensus.BTMAssetID, uint64(100+10*i+1), verifC22Prog(i, 1), nil)
+	r := types.NewOriginalTxOutput(*consensus.BTMAssetID, 7, []byte{0x6a}, nil) // unspendable program: retirement entry
+	v := types.NewVoteOutput(*consensus.BTMAssetID, 9, []byte{0x51, 0x52}, []byte{0xaa, 0xbb}, nil)
+	switch layout {
+	case 0:
+		return []*types.TxOutput{o0, o1, r}, []int{0, 1}
+	case 1:
+		return []*types.TxOutput{r, o0, o1}, []int{1, 2}
+	case 2:
+		return []*types.TxOutput{o0, v, o1}, []int{0, 2}
+	}
+	return []*types.TxOutput{o0, o1}, []int{0, 1}
 }
 
 type verifC22World struct {
 	txs      []*types.Tx
+	origPos  [][]int                 // position in ResultIds of original output k of transaction j
+	late     map[[2]bc.Hash]*orphanTx // (orphan id, input): missing now, was available when the orphan arrived
 	inputs   [][]int
 	external []bc.Hash // spent ids that no transaction of the DAG produces
 	store    *verifC22Store
@@ -94,7 +117,7 @@ type verifC22World struct {
 func verifC22Prog(i, k int) []byte { return []byte{0x51, byte(i), byte(k)} }
 
 func verifC22Build(shape, n int) *verifC22World {
-	w := &verifC22World{store: &verifC22Store{confirmed: map[bc.Hash]bool{}}}
+	w := &verifC22World{store: &verifC22Store{confirmed: map[bc.Hash]bool{}}, late: map[[2]bc.Hash]*orphanTx{}}
 	for i := 0; i < n; i++ {
 		refs := verifC22Shapes[shape][i]
 		var ins []*types.TxInput
@@ -107,20 +130,16 @@ func verifC22Build(shape, n int) *verifC22World {
 			}
 			j, k := r/2, r%2
 			p := w.txs[j]
-			out, err := p.OriginalOutput(*p.ResultIds[k])
+			pos := w.origPos[j][k]
+			out, err := p.OriginalOutput(*p.ResultIds[pos])
 			if err != nil {
 				panic("verif: harness DAG wiring")
 			}
-			ins = append(ins, types.NewSpendInput(nil, *out.Source.Ref, *consensus.BTMAssetID, uint64(100+10*j+k), uint64(k), verifC22Prog(j, k), nil))
-			want = append(want, p.ResultIds[k])
+			ins = append(ins, types.NewSpendInput(nil, *out.Source.Ref, *consensus.BTMAssetID, uint64(100+10*j+k), uint64(pos), verifC22Prog(j, k), nil))
+			want = append(want, p.ResultIds[pos])
 		}
-		outs := []*types.TxOutput{
-			types.NewOriginalTxOutput(*consensus.BTMAssetID, uint64(100+10*i), verifC22Prog(i, 0), nil),
-			types.NewOriginalTxOutput(*consensus.BTMAssetID, uint64(100+10*i+1), verifC22Prog(i, 1), nil),
-		}
-		if i == 0 {
-			outs = append(outs, types.NewOriginalTxOutput(*consensus.BTMAssetID, 7, []byte{0x6a}, nil)) // retirement
-		}
+		outs, origPos := verifC22Outputs(i, (shape+i)%4)
+		w.origPos = append(w.origPos, origPos)
 		tx := types.NewTx(types.TxData{Version: 1, SerializedSize: uint64(200 + i), Inputs: ins, Outputs: outs})
 		for x, id := range want {
 			if id == nil {
@@ -172,6 +191,9 @@ func verifC22Inv(w *verifC22World) {
 		for _, s := range o.Tx.SpentOutputIDs {
 			if w.waits(tp, s) {
 				waiting = true
+				if w.late[[2]bc.Hash{id, s}] == o {
+					continue // same orphan record as before the step; the input went missing after its arrival
+				}
 				e := tp.orphansByPrev[s][id]
 				verifAssert(e != nil && e.Tx == o.Tx, "orphan-indexed-under-each-missing-output")
 			}
@@ -247,11 +269,18 @@ func verifC22State(w *verifC22World) []int {
 		o := &orphanTx{TxDesc: &TxDesc{Tx: tx, Weight: tx.SerializedSize, Height: 5, Fee: 1}, expiration: time.Unix(int64(e), 0)}
 		tp.orphans[tx.ID] = o
 		waiting := false
-		for _, s := range tx.SpentOutputIDs {
+		for x, s := range tx.SpentOutputIDs {
 			idx := false
 			if w.waits(tp, s) {
-				waiting = true
-				idx = true
+				// an orphan is indexed under the inputs that were missing when it
+				// arrived; an input that became missing later (its creator left the
+				// pool without the output becoming spendable) is not indexed
+				if w.inputs[i][x] >= 0 && verifBool("lateMissing") {
+					w.late[[2]bc.Hash{tx.ID, s}] = o
+				} else {
+					waiting = true
+					idx = true
+				}
 			} else if w.store.confirmed[s] {
 				// still indexed under an input that a block confirmed meanwhile
 				idx = verifBool("staleIndex")
@@ -263,16 +292,59 @@ func verifC22State(w *verifC22World) []int {
 				tp.orphansByPrev[s][tx.ID] = o
 			}
 		}
-		verifAssume(waiting)
+		verifAssume(waiting) // orphaned by (and indexed under) at least one input that was missing on arrival
 	}
 	return status
 }
 
 // op: 0 processTransaction, 1 RemoveTransaction, 2 ExpireOrphan
+// verifC22Indexed: for transaction i and its input x, is there an index entry
+// orphansByPrev[input][id of i]?
+func verifC22Indexed(w *verifC22World) [][]bool {
+	var out [][]bool
+	for _, t := range w.txs {
+		var row []bool
+		for _, s := range t.SpentOutputIDs {
+			_, ok := w.tp.orphansByPrev[s][t.ID]
+			row = append(row, ok)
+		}
+		out = append(out, row)
+	}
+	return out
+}
+
+// verifC22IndexFrame: the index entries of the transactions marked keep are
+// exactly those of before; the others have none left.
+func verifC22IndexFrame(w *verifC22World, before [][]bool, keep []bool) {
+	after := verifC22Indexed(w)
+	for i := range w.txs {
+		for x := range after[i] {
+			if keep[i] {
+				verifAssert(after[i][x] == before[i][x], "index-entries-of-other-orphans-untouched")
+			} else {
+				verifAssert(!after[i][x], "removed-orphan-leaves-no-index-entry")
+			}
+		}
+	}
+}
+
 func VerifC22Step(shape, n, op int) {
 	w := verifC22Build(shape, n)
 	status := verifC22State(w)
 	tp := w.tp
+	indexed := verifC22Indexed(w)
+	keep := make([]bool, n)
+	for i := range keep {
+		keep[i] = true
+	}
+	for i, t := range w.txs {
+		for x, s := range t.SpentOutputIDs {
+			if status[i] == 2 && !indexed[i][x] && len(tp.orphansByPrev[s]) == 1 {
+				// an orphan spends an output whose index bucket holds only another orphan
+				verifReach("VerifC22Step:foreign-single-bucket")
+			}
+		}
+	}
 	switch op {
 	case 0:
 		k := verifChoice("submit", n)
@@ -351,6 +423,7 @@ func VerifC22Step(shape, n, op int) {
 			_, ok := tp.orphans[t.ID]
 			verifAssert(ok == (status[i] == 2), "orphans-untouched-by-removal")
 		}
+		verifC22IndexFrame(w, indexed, keep)
 		verifC22Inv(w)
 	case 2:
 		now := verifU64("expireAt")
@@ -370,9 +443,11 @@ func VerifC22Step(shape, n, op int) {
 			verifAssert(p == (status[i] == 1), "pool-untouched-by-expiry")
 			if exp[i] {
 				k++
+				keep[i] = false
 			}
 		}
 		verifObserveI64("expired", int64(k))
+		verifC22IndexFrame(w, indexed, keep)
 		verifC22Inv(w)
 		if k > 0 {
 			verifReach("VerifC22Step:expired")
